@@ -8,6 +8,7 @@ import NgoVerif.Proofs.C10multi
 import NgoVerif.Proofs.C20dom
 import NgoVerif.Proofs.C08impl
 import NgoVerif.Proofs.C08anon
+import NgoVerif.Proofs.C08anonStm
 /-!
 # Driver ops that evaluate the *side conditions of the end-to-end theorems* on what the real passes did
 
@@ -29,6 +30,10 @@ import NgoVerif.Proofs.C08anon
 * `(sem_anon_cond <rule before> <rule after> <rule with body [p literal]> <rule with body [q literal]> ("v" …))` →
   `(ok <anonCheck> <same literals>)`: the hypotheses of `C08_remove_weaker_copy_strongeq` for one deletion of a literal of the
   SAME predicate (`p(X), p(_)`), `("v" …)` the variables of `q` that occur nowhere else (the renamed-apart `_`).
+* `(sem_anon_in <rule before> <rule after> i j <rule with body [p literal]> <rule with body [q literal]> ("v" …))` →
+  `(ok <condCheck> <same literals> <the other parts coincide>)`: the hypotheses of `C08_remove_weaker_copy_in_condition`
+  for a weaker copy deleted inside the condition of body literal `i` (a conditional literal: `j` = -1; element `j` of a
+  body aggregate otherwise).
 * `(sem_okstm <stm>)` → `(ok <okBody>)`: the hypothesis of the `_partial` theorems about `expand_comparisons`.
 * `(sem_unused_cond <prog> "n" k)` → `(ok <every statement stmOk> <Unused n k prog>)`: the hypothesis of
   `C09_removal_sound/complete` for the program `unused` removed the rules of `n/k` from.
@@ -162,6 +167,37 @@ def handleSem : Sexp → Option Sexp
           { line := l, col := c, head := h, body := ab, pn := pn, sargs := sargs, targs := targs, F := F }
         .list [.atom "ok", ofBool (pn == qn && Proofs.C08anon.anonCheck A), ofBool (Proofs.C08impl.sameLits bb (A.qLit :: ab))]
       | _, _, _, _, _ => .list [.atom "unsupported", .str "rules / literals"]
+  | .list [.atom "sem_anon_in", o, u, si, sj, pr, qr, .list fs] =>
+    some <| match Stm.ofSexp o, Stm.ofSexp u, si.toNat?, sj.toInt?, Stm.ofSexp pr, Stm.ofSexp qr,
+        fs.mapM (fun x => match x with | .str v => some v | _ => none) with
+      | some (.rule _ _ _ bb), some (.rule _ _ h ab), some i, some j,
+        some (.rule _ _ _ [.lit (.pos, .sym (.fn pn sargs false))]), some (.rule _ _ _ [.lit (.pos, .sym (.fn qn targs false))]), some F =>
+        let pre := ab.take i
+        let post := ab.drop (i + 1)
+        let listEq : List BLit → List BLit → Bool := fun xs ys => xs.length == ys.length && (xs.zip ys).all fun p => blitEqb p.1 p.2
+        match bb[i]?, ab[i]? with
+        | some (.clit (hd, cfull)), some (.clit (hd', cond)) =>
+          if j != -1 then .list [.atom "unsupported", .str "element index for a conditional literal"] else
+          let A : Proofs.C08anonCond.CondAnon := { cond := cond, pn := pn, sargs := sargs, targs := targs, F := F }
+          .list [.atom "ok", ofBool (pn == qn && Proofs.C08anonCond.condCheck A (Proofs.C08anonStm.outsideClit h pre post hd')),
+                 ofBool (Proofs.C08anonStm.sameLitList cfull (A.qLit :: cond)),
+                 ofBool (litEqb hd hd' && listEq (bb.take i) pre && listEq (bb.drop (i + 1)) post)]
+        | some (.lit (s, .bagg _ _ lg f es rg)), some (.lit (s', .bagg _ _ lg' f' es' rg')) =>
+          let k := j.toNat
+          match es[k]?, es'[k]? with
+          | some (ts, cfull), some (ts', cond) =>
+            let epre := es'.take k
+            let epost := es'.drop (k + 1)
+            let A : Proofs.C08anonCond.CondAnon := { cond := cond, pn := pn, sargs := sargs, targs := targs, F := F }
+            .list [.atom "ok",
+                   ofBool (j ≥ 0 && pn == qn && Proofs.C08anonCond.condCheck A (Proofs.C08anonStm.outsideBagg h pre post lg' rg' epre epost ts')),
+                   ofBool (Proofs.C08anonStm.sameLitList cfull (A.qLit :: cond)),
+                   ofBool (s == s' && f == f' && optGuardEqb lg lg' && optGuardEqb rg rg' && termsEqb ts ts' &&
+                     bElemsEqb (es.take k) epre && bElemsEqb (es.drop (k + 1)) epost &&
+                     listEq (bb.take i) pre && listEq (bb.drop (i + 1)) post)]
+          | _, _ => .list [.atom "unsupported", .str "element index"]
+        | _, _ => .list [.atom "unsupported", .str "body literal at the index"]
+      | _, _, _, _, _, _, _ => .list [.atom "unsupported", .str "rules / literals"]
   | _ => none
 
 end NgoVerif
